@@ -8,21 +8,76 @@ for l in open(os.path.join(HERE, "properties.jsonl")):
     TITLES[p["id"]] = p["title"]
 
 # id -> (level text, level note, technique, design_ref)
+TECH = 'Lean 4 proof about hand-written model + differential correspondence with the implementation'
 CLAIMS = {
-    "C01": (
-        "Lean 4 theorems about an executable model of the rule pipeline (graph construction, the three graph searches, flag tables, eight violation buckets) and an independent declarative specification of the documented semantics; the model is tied to /repo on every run by a correspondence run (real assert_applies vs model vs specification; exhaustive over all import relations on small trees, seeded random beyond).",
-        "Trusted: Lean kernel; harness + driver; model-to-code agreement rests on the correspondence run (differential, exhaustive only on the small scopes named in the evidence); strict oracle only on pairwise unrelated subjects/objects and architectures where no package imports its own descendant.",
-        "Lean 4 proof about hand-written model + differential correspondence with the implementation",
-        "6/C01",
+    'C01': (
+        'Lean 4 theorems (Pta.C01.verdict_spec, verdict_spec_of_graph, report_spec, unknown_name_no_verdict) about an executable model of the rule pipeline (graph construction, the three graph searches, flag tables, eight violation buckets) and an independent declarative specification of the documented semantics: for every well-formed architecture and every strict rule the model verdict equals the specification. The model is tied to /repo on every run by a correspondence run (real assert_applies vs model vs specification; exhaustive over all import relations on small trees, seeded random beyond).',
+        'Trusted: Lean kernel; harness + driver; model-to-code agreement rests on the correspondence run (differential, exhaustive only on the small scopes named in the evidence); strict oracle only on pairwise unrelated subjects/objects and architectures where no package imports its own descendant.',
+        TECH,
+        '6/C01',
     ),
-    "C03": (
-        "Same model and specification as C01; the report is modelled as a set of structured items and compared, both inclusions, with the specification's violating set and with the parsed message of the implementation.",
-        "As C01; message wording beyond the four line shapes the property fixes is not compared.",
-        "Lean 4 proof about hand-written model + differential correspondence with the implementation",
-        "6/C03",
+    'C03': (
+        "Same model and specification as C01. Proved for every graph and rule: each reported import is an import edge with an end in a subject's sub tree, each 'does not import' line names a subject and objects of the rule (Pta.C03.*); on the strict domain the reported atoms equal the specification's violating set (Pta.C01.report_spec). The implementation's message is parsed into items and compared with model and specification on every run.",
+        'As C01; message wording beyond the four line shapes the property fixes is not compared.',
+        TECH,
+        '6/C03',
+    ),
+    'C08': (
+        'Lean 4 theorems for ALL patterns and ALL subject strings: the converted glob pattern lies in the emitted regex class, and matching it equals the documented glob meaning (Pta.C08.glob_spec, convert_shape, literal_pattern, unescape_escape); an excluded directory/file contributes nothing to the walk. Tie: exhaustive comparison of real re.match(convert(p), s) with the model matcher over all patterns/strings up to the stated length, and filtered vs unfiltered real scans vs the scan model on generated trees.',
+        "Trusted: Lean kernel, harness/driver; Python's re engine on the emitted pattern class is exercised exhaustively on short strings, not modelled; user regex exclusions are an uninterpreted relation; paths with newlines out of scope; trees where an excluded module is the sub-module target of a surviving 'from P import n' are judged in C02.",
+        TECH,
+        '6/C08',
+    ),
+    'C09': (
+        'Lean 4 theorem Pta.C09.quotient: for every well-formed architecture and every limit the graph built with level_limit has exactly the truncated names as nodes and an import a->b iff some module truncating to a imports one truncating to b and a != b (plus nodes_nodup, no_self_import, limit_shift, graph_of_arch). Verdict preservation above the limit is a correspondence-level check (two real scans / two real graph builds vs the model) on strict rules.',
+        "Partial: the 'consequently same verdict' sentence is checked by correspondence and by the model, not yet as a Lean theorem; it is false for related identifiers for any implementation satisfying the quotient law (DESIGN 6/C09). Trusted: Lean kernel, harness/driver.",
+        TECH,
+        '6/C09',
+    ),
+    'C11': (
+        "Lean 4 theorems for every regex interpretation mt, every graph, every shape (Pta.C11.regex_expansion_subject/object/anything, regex_no_match, partial_name, batch_subjects, batch_objects). Tie: real regexes evaluated by Python's re, the match table sent to the model as mt; compact vs expanded rule compared on the implementation and with the model.",
+        'Trusted: Lean kernel, harness/driver; Python re is an uninterpreted relation; regex_expansion_anything carries the hypothesis that the parent/sub-module de-duplication leaves the expansion unchanged (otherwise the documented de-duplication makes both sides equal by construction of the code, checked by correspondence).',
+        TECH,
+        '6/C11',
+    ),
+    'C12': (
+        "Lean 4 theorems on every graph (related names included): duality, negation (+ counterexample showing why one regex is not 'one subject'), both decompositions, the anything alias, both monotonicity laws; plus generated_flags_agree, a proof obligation regenerated from behavior_requirement.py and _get_dependency_expectations by a translator on every run. Tie: law instances evaluated on the real code over the C01 stream without strictness filter, and vs the model.",
+        'Trusted: Lean kernel, harness/driver, the 130-line translator (its output is also compared by executing the real class on all 16 rows).',
+        TECH,
+        '6/C12',
+    ),
+    'C13': (
+        'Lean 4 theorems over ALL call sequences: a Rule history the specification automaton classifies as incomplete/contradictory/error-at-call never yields a verdict (rule_history_raises, rule_history_error_at, rule_history_complete), LayerRule histories (layer_rule_history), unknown names, no-match regexes, entry options (decision table), diagrams without file/tags. Tie: exhaustive sequences up to length 5 over the builder vocabularies, mutations of complete chains, mutated names, all option combinations on the real code vs model vs automaton.',
+        "One open known finding F-C13b (absent name dropped by the 'anything' de-duplication) is proved as a counterexample theorem, replayed each run and printed as KNOWN-FINDING. Trusted: Lean kernel, harness/driver.",
+        TECH,
+        '6/C13',
+    ),
+    'C14': (
+        'Lean 4 theorems: the boundary-aware raw-string tests of the (repaired) code equal the component-level prefix relation (raw_test_is_prefix), and the documented semantics, violating sets, domain predicates, model verdicts (strict domain), nearest-alias labelling and layer lookup are invariant under every injective renaming of components (desc_ren, verdict_ren, violating_ren, domain_ren, model_verdict_ren, nearest_alias_ren, layerOf_ren). Tie: every case evaluated on the real code under a collision-free and an adversarial renaming, outcomes compared up to renaming and with the model.',
+        'Model-verdict invariance is proved on the strict domain (via C01); outside it invariance is checked on the implementation by the renaming runs. Trusted: Lean kernel, harness/driver.',
+        TECH,
+        '6/C14',
+    ),
+    'C15': (
+        'Partial by nature: the logic half is proved in Lean (verdict depends only on node/edge sets: verdict_congr; perm_subjects, perm_objects, perm_modules_imports, perm_patterns, perm_dir_entries; reapply, convertAliases_idem); the interpreter half (no mutation of the evaluable, hash seeds 0..7, shuffled iterdir) is observed on the real code by history/permutation/hash-seed runs and compared with the model.',
+        'The model is pure by construction, so purity of the real evaluable is exercised, not proved. Trusted: Lean kernel, harness/driver.',
+        TECH,
+        '6/C15',
+    ),
+    'C16': (
+        'Lean 4 theorems over ALL builder call sequences: the LayeredArchitecture builder refines the specification automaton (larch_refines: accept/reject at the offending call, accepted definitions list what was supplied in order), the reachable-state invariant (unique layer names, at most one pending layer, no module in two layers: larch_invariant), LayerRule guards (layer_rule_guards). Tie: exhaustive sequences up to length 6 (string and list forms, shared characters) on the real builders vs model vs automaton.',
+        "Don't-cares of the automaton (regex string equal to a module name, containing_modules([])) are compared with the model only. Trusted: Lean kernel, harness/driver.",
+        TECH,
+        '6/C16',
+    ),
+    'C17': (
+        'Lean 4 theorems: labels computed by the model of _create_plot_labels_with_alias equal the nearest-aliased-ancestor labelling for all well-formed names and alias maps (labels_spec), every module labelled exactly once (labels_cover), unknown alias rejected naming it (unknown_alias), remaining kwargs passed through (kwargs_passthrough). Tie: the drawing backend is replaced in-process by a recorder; generated alias maps on real evaluables vs the model.',
+        'The backend hand-off is observed at one interception point (networkxgraph.draw_networkx). Trusted: Lean kernel, harness/driver.',
+        TECH,
+        '6/C17',
     ),
 }
-NOT_YET = "check not built yet in this session (model/correspondence under construction); see DESIGN.md section 6"
+NOT_YET = "model, specification and correspondence check exist and pass (./check <id>), but no Lean theorem for this property is committed yet, so it is not claimed at proof level; see DESIGN.md section 6"
 
 def main():
     checks = []
